@@ -101,12 +101,13 @@ def build(spec):
     import emg3d
     import scipy.constants as sc
     shape = tuple(spec['shape'])
-    hs = [np.array(spec[k], float) for k in ('hx', 'hy', 'hz')]
+    hs = [np.array(spec[k], float) * spec.get('h_scale', 1.0) for k in ('hx', 'hy', 'hz')]
     grid = emg3d.TensorMesh(hs, (0, 0, 0))
     npr = np.random.RandomState(spec['np_seed'])
+    cscale = 10.0 ** spec.get('cond_exp', 0)       # conductivity regime (S/m)
 
     def prop():
-        return npr.randint(1, 33, shape) / 8.0
+        return cscale * npr.randint(1, 33, shape) / 8.0
     cx = prop()
     cy = prop() if spec['aniso'] in (1, 3) else None
     cz = prop() if spec['aniso'] in (2, 3) else None
@@ -802,6 +803,40 @@ def resolve_block():
     return [out[k] for k in order]
 
 
+def regime_block():
+    """Deterministic block over the option classes of the coefficient glue between Model/Field and the
+    solver: {frequency, Laplace} x {epsilon_r none/given} x {mu_r none/given} x {isotropic, HTI, VTI,
+    triaxial}, in regimes where DISPLACEMENT currents matter (s*eps0*eps_r / sigma ~ 1e-2..1e-1:
+    f = 2e5..1e7 Hz, s = 1e6..1e8 1/s, conductivities 1e-4..4e-3 S/m, cells 1..20 m) plus the diffusive
+    regime, so that the independent-residual certificate is evaluated in every class."""
+    c0 = dict(sslsolver=False, cycle='F', semicoarsening=False, linerelaxation=False, nu_init=0, nu_pre=2,
+              nu_coarse=1, nu_post=2, clevel=-1, tol=1e-6, maxit=50, return_info=True, always_return=False)
+    cfgs = [c0, dict(c0, semicoarsening=True, linerelaxation=True), dict(c0, sslsolver='bicgstab', tol=1e-5),
+            dict(c0, cycle='V', linerelaxation=4, return_info=False)]
+    shapes = [dict(shape=[4, 4, 4], hx=[1, 2, 1, 1.5], hy=[1, 1, 2, 1], hz=[2, 1, 1, 1]),
+              dict(shape=[4, 2, 6], hx=[1, 1, 1.25, 1], hy=[1, 2], hz=[1, 1, 2, 2, 1, 1]),
+              dict(shape=[6, 4, 2], hx=[2, 1, 1, 1, 1, 2], hy=[1, 1.5, 1, 1], hz=[1, 1.5])]
+    out, k = [], 0
+    for lap in (False, True):
+        for eps in (False, True):
+            for mu in (False, True):
+                for aniso in range(4):
+                    freq, hsc = ((-1.0e6, 8.0) if lap else (2.0e5, 8.0))
+                    sp = dict(shapes[k % 3], aniso=aniso, has_mu=mu, has_eps=eps, freq=freq, np_seed=100 + k,
+                              src_exp=0, cond_exp=-3, h_scale=hsc)
+                    out.append((sp, cfgs[k % 4], 'bad' if k % 5 == 4 else 'fresh', None))
+                    k += 1
+    # further regimes with epsilon_r: higher s / f on finer cells, and the diffusive regime
+    for freq, hsc, cexp in ((-1.0e7, 8.0, -3), (-1.0e8, 1.0, -2), (1.0e6, 8.0, -3), (1.0e7, 1.0, -2),
+                            (-2.0, 1.0, 0), (1.0, 1.0, 0)):
+        for aniso, mu in ((0, False), (3, True)):
+            sp = dict(shapes[k % 3], aniso=aniso, has_mu=mu, has_eps=True, freq=freq, np_seed=100 + k,
+                      src_exp=0, cond_exp=cexp, h_scale=hsc)
+            out.append((sp, cfgs[k % 4], 'fresh', None))
+            k += 1
+    return out
+
+
 def fixed_cases():
     s0 = dict(shape=[4, 4, 4], hx=[1, 2, 1, 1.5], hy=[1, 1, 2, 1], hz=[2, 1, 1, 1], aniso=0, has_mu=False,
               has_eps=False, freq=1.0, np_seed=11, src_exp=0)
@@ -820,7 +855,7 @@ def fixed_cases():
         out.append((dict(s0, nonpec={'face': face, 'which': which}), c0, 'good_nonpec'))
         out.append((dict(s1, nonpec={'face': face, 'which': which}),
                     dict(c0, sslsolver='bicgstab', tol=1e-4, return_info=False), 'good_nonpec'))
-    for spec_r, cfg_r, mode_r, _ in resolve_block()[:8]:
+    for spec_r, cfg_r, mode_r, _ in resolve_block()[:8] + regime_block():
         out.append((spec_r, cfg_r, mode_r))
     out.append((s0, dict(c0, maxit=1), 'fresh'))
     out.append((s0, dict(c0, maxit=2, semicoarsening=1213, linerelaxation=56), 'bad'))
@@ -900,6 +935,18 @@ def correspondence(ctx):
             if h:
                 prop_hits.append(h)
     ctx.c01_hits = prop_hits
+    # The model's oracle `resnorm` stands for the residual norm w.r.t. the discretised system of the
+    # Model and source passed to the call; the independent certificate is the tie of that oracle (and of
+    # krylov_contract / the PEC laws) to the code.  A run on which it fails breaks the tie -- also in
+    # the quick tier -- and makes the driver call the searcher for the concrete input.
+    sigs = set()
+    for h in prop_hits:
+        if h['signature'] not in sigs and len(sigs) < 4:
+            sigs.add(h['signature'])
+            dis.append({'what': 'independent certificate fails on an observed run: ' + h['signature'],
+                        'signature': h['signature'], 'case': brief(h['spec'], h['cfg'], h['mode']),
+                        'impl': {k: h[k] for k in ('exit_message', 'abs_error', 'independent_residual', 'bound',
+                                                   'which', 'field_norm') if k in h}})
     if prop_hits:
         ctx.notes.append(f"property monitor: {len(prop_hits)} observed runs violate C01 itself, e.g. "
                          f"{prop_hits[0]['signature']}")
@@ -953,7 +1000,7 @@ def nonpec_block():
 def targeted(ctx):
     s0 = fixed_cases()[0][0]
     c0 = fixed_cases()[0][1]
-    out = resolve_block() + nonpec_block() + [(s0, c0, 'zero_supplied', None), (s0, dict(c0, always_return=True), 'zero_supplied', None),
+    out = regime_block() + resolve_block() + nonpec_block() + [(s0, c0, 'zero_supplied', None), (s0, dict(c0, always_return=True), 'zero_supplied', None),
            (s0, c0, 'zero_fresh', None)]
     for ssl in SOLVERS:
         for cyc in ('F', None):
@@ -991,13 +1038,16 @@ def search(ctx, broken):
     ctx.notes.append(f"searcher: property evaluated on {len(cases)} real solver runs "
                      f"(targeted zero-source / Krylov cases first)")
     # most telling first: genuine-scipy hits before stub hits
-    prio = ['success reported but the independent residual exceeds tol*|source|' + RESOLVE_TAG,
-            'reported abs_error is not the residual of the field the caller holds' + RESOLVE_TAG,
-            'success with a non-PEC field',
-            "zero source: success reported but the caller's field is not zero",
-            'reported abs_error is not the residual of the field the caller holds',
-            'success reported but the independent residual exceeds tol*|source|']
-    hits.sort(key=lambda h: ('krylov_stub' in h, prio.index(h['signature']) if h['signature'] in prio else 9))
+    def severity(h):
+        """most telling first: categorical failures (non-PEC, non-zero field for a zero source, dtype,
+        exit status), then by how far the independent residual exceeds its bound, then abs_error mismatches"""
+        if h.get('independent_residual') is not None and h.get('bound'):
+            return h['independent_residual'] / h['bound']
+        if h.get('independent_residual') is not None and h.get('abs_error') is not None:
+            r = h['independent_residual']
+            return abs(h['abs_error'] - r) / r if r else 1.0
+        return float('inf')
+    hits.sort(key=lambda h: ('krylov_stub' in h, -severity(h)))
     return hits
 
 
